@@ -1329,8 +1329,13 @@ func (w *world) doTicks(st simkit.Step) {
 			for _, ob := range o.obs {
 				w.log.Add("tick out obs %s", shortHex(ob.Hash))
 			}
-			for _, r := range o.reqs {
-				w.log.Add("tick out req %d %s", r.ChainId, shortHex(r.TxHash))
+			if len(o.reqs) < len(o.obs) {
+				// the bounded request queue dropped some: which ones depends on Go's map order (rule D3/D4)
+				w.log.Add("tick out reqs %d of %d (queue-limited)", len(o.reqs), len(o.obs))
+			} else {
+				for _, r := range o.reqs {
+					w.log.Add("tick out req %d %s", r.ChainId, shortHex(r.TxHash))
+				}
 			}
 			w.log.Add("state %s", shortHex(crypto.Keccak256([]byte(w.stateDump()))))
 			w.log.Cut(fmt.Sprintf("%d %s #%d t=%v", w.stepIdx, st, k, time.Since(w.start)))
